@@ -526,7 +526,7 @@ func isPtrToNamed(t types.Type, pkgPath, name string) bool {
 	if !ok {
 		return false
 	}
-	n, ok := p.Elem().(*types.Named)
+	n, ok := types.Unalias(p.Elem()).(*types.Named)
 	if !ok || n.Obj().Pkg() == nil {
 		return false
 	}
